@@ -99,3 +99,9 @@ def canon_serve(out):
 RUST_WS = "\t\n\x0b\x0c\r \x85\xa0\u1680\u2000\u2001\u2002\u2003\u2004\u2005\u2006\u2007\u2008\u2009\u200a\u2028\u2029\u202f\u205f\u3000"
 def rust_trim(s):
     return s.strip(RUST_WS)
+
+
+def request_method(req):
+    """the method as the parser sees it: the request line is trimmed of Unicode white space (str::trim) before it is split - upper-cased bytes"""
+    line = req.split(b"\n")[0].decode("utf-8", "replace")
+    return rust_trim(line).split(" ")[0].upper().encode()
